@@ -164,6 +164,10 @@ fn gmsg(csids: &'static [u32]) -> BoxedStrategy<GMsg> {
 // includes pairs that alias under plausible csid-decoding mistakes (264/520, 319/575, 65/320)
 const CSIDS: &[u32] = &[3, 4, 5, 6, 8, 63, 64, 65, 264, 319, 320, 520, 575, 65599];
 
+pub fn fuzz_strategy() -> BoxedStrategy<Case> {
+    prop_oneof![case_strategy(false), case_strategy(true)].boxed()
+}
+
 fn case_strategy(overlap_free: bool) -> BoxedStrategy<Case> {
     let merge = if overlap_free {
         Just(Vec::<u16>::new()).boxed()
